@@ -48,7 +48,7 @@ CHECKS = {
          "exhaustive enumeration of structured families + property-based random generation (proptest choice tape) against a reference model; node as secondary oracle on samples",
          "§10 C15"),
  "C13": ("exploration",
-         "Model-based testing of the collector through the public Heap/Guard/Gc API under AddressSanitizer: (1) breadth-first enumeration over abstract model states (<=3 live guards, <=4 objects, <=2 handles/links per object) from the empty heap (depth 5 quick / 7 thorough) and four start configurations (depth 4-6 quick / 5-8 thorough), every (state, op) pair executed as its own history on a fresh heap; (2) seeded random histories of up to 10^4 operations with thousands of objects crossing the 256-slot chunk and 16-entry guard-pool boundaries. After every operation the payload and links of every model-reachable object are compared, after every collection stats().live_objects == |reachable| and pooled+live==total, and a slot may be handed out again only if its previous tenant was unreachable. Exhaustive inside the bound modulo abstract-state de-duplication, sampled beyond it.",
+         "Model-based testing of the collector through the public Heap/Guard/Gc API under AddressSanitizer: (1) breadth-first enumeration over abstract model states (<=3 live guards, <=4 objects, <=2 handles/links per object) from the empty heap (depth 5 quick / 7 thorough) and four start configurations (depth 4-6 quick / 5-8 thorough), every (state, op) pair executed as its own history on a fresh heap; (2) a slot-recycling family: stale handles kept while their slot is recycled n times (n around 2^8 and 2^16, up to 131072) and then used against the slot's live tenant; (3) seeded random histories of up to 10^4 operations with thousands of objects crossing the 256-slot chunk and 16-entry guard-pool boundaries. After every operation the payload and links of every model-reachable object are compared, after every collection stats().live_objects == |reachable| and pooled+live==total, and a slot may be handed out again only if its previous tenant was unreachable. Exhaustive inside the bound modulo abstract-state de-duplication, sampled beyond it.",
          "Trusted: the reference model in harness/src/props/c13.rs, AddressSanitizer + debug assertions as memory-safety monitor. Stale handles are only dropped, cloned, guarded and unguarded (never borrowed); borrowing a handle after the heap was dropped is outside the domain.",
          "exhaustive bounded enumeration + property-based random generation (proptest choice tape) against a reference model, AddressSanitizer build",
          "§10 C13"),
